@@ -115,6 +115,7 @@ func pemCase(c *mon.Case, cname string, alg smx509.PEMCipher, bs int, label, for
 	}
 	armoured := pem.EncodeToMemory(blk)
 	c.Detail("pem", string(armoured))
+	publish(c, "pem", armoured)
 	blk2, rest := pem.Decode(armoured)
 	if blk2 == nil || len(rest) != 0 || !smx509.IsEncryptedPEMBlock(blk2) {
 		c.Fail("mismatch", "the encrypted block does not survive PEM armouring")
